@@ -3,6 +3,7 @@ import PV.C10.Spec
 import PV.C10.Lemmas
 import PV.Gen.C10RangeKinds
 import PV.C10.LexFilter   -- lexer model: full_lexer_filter, softkw_commutes_filter(_fails)
+import PV.C09.Pipeline   -- text → answer on the models (lexer model, filter, token conversion, PV.Prog.parseProgram)
 /-
   C10 — property theorems: "Cargo feature choices do not change what is parsed".
 
@@ -12,7 +13,10 @@ import PV.C10.LexFilter   -- lexer model: full_lexer_filter, softkw_commutes_fil
   * bigint backends: theorems below, with the backend as a parameter constrained by its contract
     (`Spec.BackendOk`); that the two crates meet the contract is sampled by the builds, not proved;
   * full-lexer: `PV.C10.full_lexer_filter`, `PV.C10.softkw_commutes_filter` live in
-    lean/PV/C10/LexFilter.lean (lexer model); the LALRPOP parser behind the filter is compared by builds.
+    lean/PV/C10/LexFilter.lean (lexer model); the LALRPOP parser behind the filter is compared by builds;
+    END TO END ON THE MODELS (last section): `feature_tree_invariant` — with or without `full-lexer` the pipeline
+    lexer model → filter → reference parser `PV.Prog.parseProgram` gives the same answer (same tree, same rejection,
+    same first lexical error) —, `feature_first_error_invariant`, `feature_lex_error_invariant` (unconditional).
 -/
 namespace PV.C10
 open Spec
@@ -133,5 +137,105 @@ example : intLit refBackend [48, 120, 70, 95, 102] = some 255 := by decide   -- 
 example : intLit refBackend [48, 48, 95, 48] = some 0 := by decide           -- 00_0
 example : intLit refBackend [48, 55] = none := by decide                     -- 07
 example : intLit refBackend [49, 95, 95, 48] = none := by decide             -- 1__0
+
+/-! ## full-lexer, end to end on the models
+
+  `PV.Pipeline.parseText conv cfg mode k src` = lexer model (with the soft-keyword pass) in the configuration `cfg` from start
+  offset `k`, the filter of `parse_filtered_tokens`, the token conversion `conv`, the reference parser
+  `PV.Prog.parseProgram` (lean/PV/C09/Pipeline.lean).  As in `PV.C08.layout_tree_invariant` the conversion is a parameter
+  that cannot see positions; the statements hold for every such map. -/
+
+section EndToEnd
+open PV.Lexer PV.Pipeline
+
+/-- the filter of the pipeline is the filter of `full_lexer_filter` -/
+theorem filterTrivia_eq_dropTrivia (toks : List Spanned) : filterTrivia toks = dropTrivia toks := rfl
+
+/-- dropping the trivia tokens from the lexer's result before it is handed over changes no answer (the pipeline filters anyway) -/
+theorem answerOf_dropOut (conv : Conv) (pmode : PV.Prog.Mode) (r : Option LexOut) :
+    answerOf conv pmode (r.map dropOut) = answerOf conv pmode r := by
+  cases r with
+  | none => rfl
+  | some o =>
+    simp only [Option.map_some, answerOf, answerOfFuel, dropOut]
+    rw [← filterTrivia_eq_dropTrivia, parserInput_filter]
+
+/-- **With or without the `full-lexer` feature the same tree is built** (on the models): for every token conversion, mode,
+    start offset and source whose full-lexer stream is `SoftSafe` (the side condition of `softkw_commutes_filter`: a soft
+    keyword that is examined is not directly followed by a comment / non-logical newline), the pipeline gives the same
+    answer in both configurations — the same tree, or the same rejection, or the same first lexical error (kind and
+    offset), or the same panic.  Composition of `softkw_commutes_filter` (both configurations hand the parser the same
+    tokens with the same ranges) with the filter of `parse_filtered_tokens`; since even the ranges agree,
+    `PV.Prog.parseProgram_layout_free` is not needed. -/
+theorem feature_tree_invariant (conv : Conv) (up : UParams) (mode : Mode) (k : Nat) (src : List Nat)
+    (hs : ∀ oF, lexRaw ⟨true, up⟩ k src = some oF → SoftSafe oF.toks (SoftSt.init mode)) :
+    parseText conv ⟨true, up⟩ mode k src = parseText conv ⟨false, up⟩ mode k src := by
+  unfold parseText
+  cases hF : lexRaw ⟨true, up⟩ k src with
+  | none =>
+    have h1 : lex ⟨true, up⟩ mode k src = none := by simp [lex, hF]
+    have h2 : lex ⟨false, up⟩ mode k src = none := by simp [lex, lexRaw_filter, hF]
+    rw [h1, h2]
+  | some oF =>
+    rw [softkw_commutes_filter up mode k src oF hF (hs oF hF), answerOf_dropOut]
+
+/-- **The first lexical error is the same in both configurations** — kind, character index and byte offset; also "no
+    error" and "panic" —, for EVERY source (no side condition: the soft-keyword pass does not touch the end of the
+    stream).  Corollary of `full_lexer_filter`. -/
+theorem feature_first_error_invariant (up : UParams) (mode : Mode) (k : Nat) (src : List Nat) :
+    (lex ⟨false, up⟩ mode k src).map (·.fin) = (lex ⟨true, up⟩ mode k src).map (·.fin) := by
+  unfold lex
+  rw [lexRaw_filter]
+  cases lexRaw ⟨true, up⟩ k src <;> simp [dropOut]
+
+/-- … hence the pipeline answers "lexical error `kind` at `offset`" in one configuration iff it does in the other, for
+    every source -/
+theorem feature_lex_error_invariant (conv : Conv) (up : UParams) (mode : Mode) (k : Nat) (src : List Nat)
+    (kind : ErrKind) (offset : Nat) :
+    parseText conv ⟨true, up⟩ mode k src = .lexError kind offset ↔
+      parseText conv ⟨false, up⟩ mode k src = .lexError kind offset := by
+  unfold parseText answerOf
+  rw [answerOfFuel_lexError_iff, answerOfFuel_lexError_iff, feature_first_error_invariant up mode k src]
+
+/-- `type X = (1, # c⏎ 2)⏎⏎`: a soft keyword, a comment and a line break inside brackets, a blank line -/
+def treeSrc : List Nat := [116, 121, 112, 101, 32, 88, 32, 61, 32, 40, 49, 44, 32, 35, 32, 99, 10, 32, 50, 41, 10, 10]
+
+theorem treeSrc_full : lexRaw ⟨true, asciiUp⟩ 0 treeSrc = some
+    ⟨[⟨.kw .Type_, 0, 4, 0, 4⟩, ⟨.name [88], 5, 6, 5, 6⟩, ⟨.op .Equal, 7, 8, 7, 8⟩, ⟨.op .Lpar, 9, 10, 9, 10⟩,
+      ⟨.int 1, 10, 11, 10, 11⟩, ⟨.op .Comma, 11, 12, 11, 12⟩, ⟨.comment [35, 32, 99], 13, 16, 13, 16⟩,
+      ⟨.nonLogicalNewline, 16, 17, 16, 17⟩, ⟨.int 2, 18, 19, 18, 19⟩, ⟨.op .Rpar, 19, 20, 19, 20⟩,
+      ⟨.newline, 20, 21, 20, 21⟩, ⟨.nonLogicalNewline, 21, 22, 21, 22⟩], .eof, 22⟩ := by decide +kernel
+
+/-- the side condition of `feature_tree_invariant` holds for it (three trivia tokens are in the full-lexer stream) … -/
+theorem treeSrc_softSafe : ∀ oF, lexRaw ⟨true, asciiUp⟩ 0 treeSrc = some oF → SoftSafe oF.toks (SoftSt.init .module) := by
+  intro oF h
+  rw [treeSrc_full] at h
+  cases h
+  simp [SoftSafe, HeadOk, Tok.isTrivia, SoftSt.init]
+
+theorem treeSrc_default : lex ⟨false, asciiUp⟩ .module 0 treeSrc = some
+    ⟨[⟨.kw .Type_, 0, 4, 0, 4⟩, ⟨.name [88], 5, 6, 5, 6⟩, ⟨.op .Equal, 7, 8, 7, 8⟩, ⟨.op .Lpar, 9, 10, 9, 10⟩,
+      ⟨.int 1, 10, 11, 10, 11⟩, ⟨.op .Comma, 11, 12, 11, 12⟩, ⟨.int 2, 18, 19, 18, 19⟩, ⟨.op .Rpar, 19, 20, 19, 20⟩,
+      ⟨.newline, 20, 21, 20, 21⟩], .eof, 22⟩ := by decide +kernel
+
+/-- … and the answer, in both configurations, is the `TypeAlias` statement -/
+example : parseText sampleConv ⟨true, asciiUp⟩ .module 0 treeSrc =
+    .tree (.module [.typeAlias (.name [88]) [] (.tuple [.const (.int 1), .const (.int 2)])]) := by
+  rw [feature_tree_invariant sampleConv asciiUp .module 0 treeSrc treeSrc_softSafe]
+  unfold parseText
+  rw [treeSrc_default]
+  rfl
+
+/-- `x = $`: both configurations stop at the same lexical error -/
+example : (lex ⟨true, asciiUp⟩ .module 7 [120, 32, 61, 32, 36]).map (·.fin) = some (.err (.unrecognizedToken 36) 5 12) ∧
+    parseText sampleConv ⟨false, asciiUp⟩ .module 7 [120, 32, 61, 32, 36] = .lexError (.unrecognizedToken 36) 12 := by
+  refine ⟨by decide +kernel, ?_⟩
+  have h : lex ⟨false, asciiUp⟩ .module 7 [120, 32, 61, 32, 36] = some
+      ⟨[⟨.name [120], 0, 1, 7, 8⟩, ⟨.op .Equal, 2, 3, 9, 10⟩], .err (.unrecognizedToken 36) 5 12, 12⟩ := by decide +kernel
+  unfold parseText
+  rw [h]
+  rfl
+
+end EndToEnd
 
 end PV.C10
